@@ -720,6 +720,16 @@ def structural(ty, _depth=0):
             if ws:
                 full[k] = ws[-1]
         out.append(full)
+        # keys the type does not declare: anything for an open TypedDict, the extra-items type otherwise
+        for k in ("a", "b", "c", "zz"):
+            if k in items:
+                continue
+            if extra is None:
+                for f in ("oops", 1, None):
+                    out.append({**base, k: f})
+            elif extra != NEVER:
+                for w in sub(extra, 2)[:2]:
+                    out.append({**base, k: w})
         return out
     if tag == "dictinc":
         c, pairs = ty[1], ty[2]
